@@ -119,7 +119,10 @@ def mismatch_nest(repo, res, a):
                 res.check(bare and zero, f"unify:{eff}#{i}", fn.where(a.differ_if), "units are unified without a dimension check outside the bare all-zero exception (one operand is not a unyt_array and the operand that adopts the other's unit has no non-zero element)", f"not isinstance(.., unyt_array) and np.count_nonzero({which}) == 0", sorted(x.facts), path=[f"{t}={tr}" for t, tr in sorted(x.facts)], rid=r2)
     res.check(n_unify >= 2, "zero-test", fn.where(a.differ_if), "the all-zero exception (bare zeros may be added / compared) is present for either operand", rid=r2)
     # the block is entered whenever the units differ
-    res.check(norm(a.differ_if.test) == "u0 is not u1 and u0 != u1", "entry", fn.where(a.differ_if), "the check must be entered whenever the two units are not equal", "u0 is not u1 and u0 != u1", norm(a.differ_if.test), rid=r2)
+    from rules.ufunc import differ_entry
+
+    ok_e, bad_e = differ_entry(a)
+    res.check(ok_e, "entry", fn.where(a.differ_if), "the check must be entered whenever the two units are not equal: the entry test has a conjunct that can be false for units of different dimension", "only comparisons of the two unit objects (is not / !=)", bad_e, rid=r2)
 
 
 def eq_ne(repo, res, a):
@@ -374,4 +377,6 @@ MUTANTS = [
     Mutant("unit-add-returns", UO, "Unit.__add__", 'raise InvalidUnitOperation("addition with unit objects is not allowed")', "return self", ("C01-R6",)),
     Mutant("write-before-check", ARR, "unyt_array.__array_ufunc__", "            ret_class = _get_binary_op_return_class(type(i0), type(i1))\n", "            ret_class = _get_binary_op_return_class(type(i0), type(i1))\n            if out is not None:\n                out[...] = 0\n", ("C01-R7",)),
     Mutant("twin-reorder-checked", ARR, "unyt_array.__array_ufunc__", "                _preserve_units,\n                _comparison_unit,\n", "                _comparison_unit,\n                _preserve_units,\n", (), benign=True),
+    Mutant("entry-by-spelling", ARR, "unyt_array.__array_ufunc__", "if u0 is not u1 and u0 != u1:", "if u0 is not u1 and u0.expr != u1.expr:", ("C01-R2",)),
+    Mutant("entry-without-identity-shortcut", ARR, "unyt_array.__array_ufunc__", "if u0 is not u1 and u0 != u1:", "if u0 != u1:", (), benign=True),
 ]
